@@ -93,6 +93,7 @@ func loadEngine(repo string) (*Engine, error) {
 		sort.Slice(fs, func(i, j int) bool { return fs[i].String() < fs[j].String() })
 	}
 	e.contracts = loadContracts(repo)
+	e.initUFuncs()
 	e.initLib()
 	e.initImmutables()
 	return e, nil
@@ -374,7 +375,61 @@ func (c *FnCtx) paramVars(s *State) map[string]Val {
 	return vars
 }
 
-func (e *Engine) displayName(fn *ssa.Function) string { return e.fnKey(fn) }
+func (e *Engine) displayName(fn *ssa.Function) string {
+	k := e.fnKey(fn)
+	if len(fn.TypeArgs()) > 0 && fn.Signature.Recv() == nil {
+		var as []string
+		for _, t := range fn.TypeArgs() {
+			as = append(as, types.TypeString(t, func(p *types.Package) string { return p.Name() }))
+		}
+		k += "[" + strings.Join(as, ",") + "]"
+	}
+	return k
+}
+
+func specSort(name string) (types.Type, string) {
+	switch name {
+	case "int", "uint", "uint64", "rune", "byte":
+		return intT, sInt
+	case "string":
+		return strT, sStr
+	case "bool":
+		return boolT, sBool
+	case "float64":
+		return types.Typ[types.Float64], sF64
+	case "any", "error":
+		return types.NewInterfaceType(nil, nil), sIface
+	case "ref":
+		return intT, sInt
+	}
+	return nil, ""
+}
+
+func (e *Engine) initUFuncs() {
+	for _, u := range e.contracts.UFuncs {
+		rt, rs := specSort(u.Result)
+		if rt == nil {
+			e.contracts.errf("%s: ufunc %s: unknown result sort %s", u.Where, u.Name, u.Result)
+			continue
+		}
+		var ps []string
+		ok := true
+		for _, p := range u.Params {
+			_, srt := specSort(p)
+			if srt == "" {
+				e.contracts.errf("%s: ufunc %s: unknown parameter sort %s", u.Where, u.Name, p)
+				ok = false
+			}
+			ps = append(ps, srt)
+		}
+		if !ok {
+			continue
+		}
+		name := "uf_" + u.Name
+		e.ufuncs[u.Name] = UFunc{Name: name, T: rt}
+		e.globalDecls = append(e.globalDecls, fmt.Sprintf("(declare-fun %s (%s) %s)", name, strings.Join(ps, " "), rs))
+	}
+}
 
 func (e *Engine) verifyFunc(fn *ssa.Function, con *Contract) *FnCtx {
 	c := &FnCtx{eng: e, fn: fn, name: e.displayName(fn), con: con, declSet: map[string]bool{}, lits: map[string]string{},
@@ -437,6 +492,19 @@ func (e *Engine) verifyFunc(fn *ssa.Function, con *Contract) *FnCtx {
 		}
 	}
 	c.collectEntryTerms(s)
+	if con != nil {
+		for _, w := range con.Witness {
+			x := &EvalCtx{s: s, vars: c.paramVars(s), pkg: pkgOf(fn)}
+			v := x.eval(w.Expr)
+			c.specErrors(x, w.Where)
+			cs := comps(v.T)
+			for i, t := range flatten(v) {
+				if i < len(cs) {
+					c.entryTerms = append(c.entryTerms, entryTerm{w.Src + cs[i].Suffix, cs[i].Sort, t})
+				}
+			}
+		}
+	}
 	c.entry = s.clone()
 	if con != nil {
 		c.frameOn = true
